@@ -334,12 +334,25 @@ fn binaries(out: &mut Out, rng: &mut Rng, thorough: bool) {
 	let mut docs: Vec<(Fmt, String, usize, String)> = vec![];
 	for &f in ALL_FMTS.iter() {
 		for shape_name in text_shapes(f) {
-			if !thorough && (*shape_name == "random" || *shape_name == "mixed-keypos" || *shape_name == "map32" || *shape_name == "array16") {
+			if !thorough && (*shape_name == "random" || *shape_name == "mixed-keypos") {
 				continue;
 			}
+			// headers wider than needed (array 16, map 32): in the quick tier only
+			// far beyond the limit, where an uncounted level costs the stack
+			let wide_only_far = !thorough && (*shape_name == "map32" || *shape_name == "array16");
 			let l = expected_limit(f);
-			let mut depths: Vec<usize> = if thorough { (l - 3..=l + 3).collect() } else { vec![l - 2, l - 1, l, l + 1] };
-			depths.extend_from_slice(&[1000, 4000, 10_000, 100_000, 1_000_000]);
+			let mut depths: Vec<usize> = if wide_only_far {
+				vec![]
+			} else if thorough {
+				(l - 3..=l + 3).collect()
+			} else {
+				vec![l - 2, l - 1, l, l + 1]
+			};
+			if wide_only_far {
+				depths.extend_from_slice(&[20_000, 300_000]);
+			} else {
+				depths.extend_from_slice(&[1000, 4000, 10_000, 100_000, 1_000_000]);
+			}
 			for n in depths {
 				if n > depth_cap(f, shape_name, thorough) {
 					continue;
